@@ -151,6 +151,38 @@ def disposition(e):
     return None
 
 
+def disposition_elsewhere(e):
+    """bounds checks OUTSIDE the modelled functions: counted only by the check; classified here for the reader.
+    The preconditions named are NOT proved in C19 (the key layouts are C11's subject, the selection heap C02's, the
+    script reader C16's, chain consistency an assumption about the node)."""
+    k, fn, x = e["kind"], e["func"].split(".")[-1], e["expr"]
+    if k == "inlined" and x.endswith(".String()"):
+        return "generic:hash_string_in_bounds — wire.Hash.String() inlined at a logging / formatting call"
+    if "hex.EncodeToString" in x:
+        return "generic:hex_encode_in_bounds — hex.EncodeToString inlined"
+    if re.search(r"ret\[[ij]\]|histories\[[ij]\]|result\[[ij]\]|utxos\[[ij]\]", x):
+        return "generic:sort_less_in_bounds — closure of sort.Slice"
+    if re.search(r"BigEndian\.(Uint|PutUint)|readAddressHeight|\[\d+:\d*\]|\[:\d+\]|\[\d+\]$|\[off:\]|widLen", x) and "_db.go" in e["file"] + "_db.go" * (fn in ("GrossBalance", "AddCredits", "Rollback")):
+        return "generic:fixed_width_in_bounds — precondition: the key / value has the fixed layout its put function writes (txmgr key layouts; C11's subject, not proved here)"
+    if re.search(r"rel\.Index\]|\[index\]", x):
+        return "generic:loop_index_in_bounds — the index was recorded by the filter loop ranging over the same slice (RelevantMeta.Index) / by the history record of an existing output"
+    if re.search(r"PreviousOutPoint\.Index\]", x):
+        return "assumption: the previous transaction comes from the node (chain database / validated mempool): an input refers to an existing output"
+    if fn in ("adjust", "submit", "optOutputs"):
+        return "other property: coin selection (C02, coq/Tx/Select.v)"
+    if fn == "extractAddressInfos":
+        return "other property: C16 (extract_address_infos, repaired E2)"
+    if fn == "CheckTargetBinding":
+        return "precondition: IsValidBindingTarget accepted the address and it is not a pubkey-hash address, hence a 22-byte binding target"
+    if fn in ("getTxType", "GetBlockStakingReward", "marshalGetBlockResponse", "generateRPCKeyPair", "messageToHex"):
+        return "not modelled: block service / TLS set-up / library call (exploration only)"
+    if "BytesPrefix" in x:
+        return "generic:loop_index_in_bounds — mwdb.BytesPrefix inlined (KV/Model.v, C11)"
+    if re.search(r"transactions\[i\]|txHashes\[0\]", x):
+        return "generic:loop_index_in_bounds — counted loop over a block record / non-empty list tested above"
+    return "unclassified (counted only)"
+
+
 def in_scope(e):
     f, fn = e["file"], e["func"]
     if fn in MODELLED.get(f, []):
@@ -173,10 +205,12 @@ def main():
     inv = json.load(open(src))
     pinned, bad = [], []
     elsewhere = {}
+    else_entries = []
     for e in inv["entries"]:
         if not in_scope(e):
             if e["kind"] in ("index", "slice", "inlined"):
                 elsewhere[e["kind"]] = elsewhere.get(e["kind"], 0) + e["count"]
+                else_entries.append({"key": key(e), "count": e["count"], "disposition": disposition_elsewhere(e)})
             continue
         d = disposition(e)
         if d is None:
@@ -191,10 +225,15 @@ def main():
         "compiler_reports_at_pin_time": inv["compiler_reports"],
         "bounds_checks_elsewhere_at_pin_time": elsewhere,
         "entries": sorted(pinned, key=lambda x: x["key"]),
+        "bounds_checks_elsewhere (counted only by the check; classification for the reader)": sorted(else_entries, key=lambda x: x["key"]),
     }
     path = os.path.join(ROOT, "corpus", "C19_inventory.json")
     json.dump(out, open(path, "w"), indent=1, ensure_ascii=False)
-    print("pinned %d entries (%d unclassified) -> %s" % (len(pinned), len(bad), path))
+    print("pinned %d entries (%d unclassified) -> %s; %d bounds checks elsewhere, %d of them unclassified" % (
+        len(pinned), len(bad), path, len(else_entries), sum(1 for x in else_entries if x["disposition"].startswith("unclassified"))))
+    for x in else_entries:
+        if x["disposition"].startswith("unclassified"):
+            print("  elsewhere, unclassified:", x["key"])
     for b in bad:
         print("UNCLASSIFIED", b)
     return 1 if bad else 0
